@@ -352,8 +352,8 @@ type ignoreJob struct {
 //
 //	use:         all four categories | the narrowest list standing for the expected rules (deprecated
 //	             parent where one exists, else the rule ID)
-//	except:      (use = all four categories) every key of the alphabet, alone and with an ignore_only entry of the
-//	             same key for the edited file
+//	except:      (use = all four categories) every key of the alphabet alone; every rule / deprecated ID with an
+//	             ignore_only entry of every other rule / deprecated ID for the other path
 //	ignore_only: every single entry key x {here, elsewhere, elsewhere+here}; every pair of distinct keys
 //	             with different paths (here / elsewhere both ways), pairs of rule / deprecated IDs in
 //	             both textual orders (pairs with a category key under the narrow use list only);
@@ -406,12 +406,17 @@ func ignoreConfigsFor(c *ignoreCase, version string) []ignoreJob {
 		out = append(out, ignoreJob{c: c, seeds: seeds, cfg: IgnoreConfig{Version: version, Use: use, Ignore: ignore, IgnoreOnly: entries}})
 	}
 	keys := append(append([]string(nil), plain...), cats...)
-	// except lists: every key removed from the union (the rules it does not stand for stay active), alone and
-	// together with an ignore_only entry of the same key for the edited file
+	// except lists: every key removed from the union (the rules it does not stand for stay active), alone and -
+	// rule / deprecated IDs - together with an ignore_only entry of every other such key for the other path
 	for _, k := range keys {
-		out = append(out,
-			ignoreJob{c: c, seeds: 1, cfg: IgnoreConfig{Version: version, Use: uses[0], Except: []string{k}}},
-			ignoreJob{c: c, seeds: 1, cfg: IgnoreConfig{Version: version, Use: uses[0], Except: []string{k}, IgnoreOnly: []IgnoreEntry{{k, []string{c.here}}}}})
+		out = append(out, ignoreJob{c: c, seeds: 1, cfg: IgnoreConfig{Version: version, Use: uses[0], Except: []string{k}}})
+	}
+	for _, k1 := range plain {
+		for _, k2 := range plain {
+			if k1 != k2 {
+				out = append(out, ignoreJob{c: c, seeds: 1, cfg: IgnoreConfig{Version: version, Use: uses[0], Except: []string{k1}, IgnoreOnly: []IgnoreEntry{{k2, []string{c.elsewhere}}}}})
+			}
+		}
 	}
 	for ui, use := range uses {
 		for _, k := range keys {
@@ -593,7 +598,7 @@ func RunIgnoreConfigs(r *evid.Run, eng *Engine, perBase map[string][]Instance, b
 	for _, shape := range []string{
 		"deprecated-parent@elsewhere+sibling-replacement@here", "other-rule@here", "own-category@elsewhere",
 		"other-category@here+own-category@elsewhere", "deprecated-parent@elsewhere", "ignore@elsewhere+other-rule@here",
-		"except-sibling-replacement", "except-other-category", "except-other-rule",
+		"except-sibling-replacement", "except-other-category", "except-other-rule", "except-other-rule+self@elsewhere",
 	} {
 		if shapeChecks[shape] == 0 {
 			r.Incomplete("ignore-config shape never exercised: " + shape)
